@@ -70,6 +70,9 @@ func c03r1(c *Ctx) {
 		fn, cv := lc.Fn, lc.Call
 		name := calleeName(cv.Common())
 		region := pfIterRegion(cv, lc.Loop.Head)
+		// alternative phase calls (`if delegated { … = remote(…) } else { … = local(…) }`) deliver
+		// into shared variables: everything below is judged on the paths that executed this call
+		av := p.pfAfter(cv)
 
 		// (a) the next iteration starts only after err == nil and a zero probing result
 		o := c.Ob(fn, "loop-continue:"+name, cv, "the next phase is reconciled only after this phase returned nil error and a zero ProbingResult")
@@ -81,10 +84,10 @@ func c03r1(c *Ctx) {
 			var bad []string
 			for _, t := range tails {
 				fs := p.FactsOnEdge(t, lc.Loop.Head)
-				if p.errOfCall(fs, cv) != yesTri {
+				if av.errOf(fs) != yesTri {
 					bad = append(bad, fmt.Sprintf("back edge from block %d (%s): the call's error is not known to be nil", t.Index, p.blockPos(t)))
 				}
-				if p.pfIsZeroFact(fs, cv, lc.ProbeIdx) != yesTri {
+				if av.isZero(fs, lc.ProbeIdx) != yesTri {
 					bad = append(bad, fmt.Sprintf("back edge from block %d (%s): the call's ProbingResult is not known to be zero (a later phase is reconciled although this one failed its probes)", t.Index, p.blockPos(t)))
 				}
 			}
@@ -110,12 +113,12 @@ func c03r1(c *Ctx) {
 				n++
 				at := p.IPos(rc.Ret)
 				switch {
-				case p.errOfCall(rc.Facts, cv) == noTri:
+				case av.errOf(rc.Facts) == noTri:
 					if p.pfPossiblyNilUnder(rc.Results[eiFn], rc.Facts) {
 						bad = append(bad, "return at "+at+" may return a nil error although the phase call failed (error swallowed)")
 					}
-				case p.errOfCall(rc.Facts, cv) == yesTri && p.pfIsZeroFact(rc.Facts, cv, lc.ProbeIdx) == noTri:
-					if !p.pfIsResultOf(rc.Results[piFn], cv, lc.ProbeIdx) {
+				case av.errOf(rc.Facts) == yesTri && av.isZero(rc.Facts, lc.ProbeIdx) == noTri:
+					if !av.isResult(rc.Results[piFn], lc.ProbeIdx) {
 						bad = append(bad, "return at "+at+" on the failing-probe path does not return the ProbingResult of the failing call (found "+p.describe(rc.Results[piFn])+")")
 					}
 				default:
